@@ -97,6 +97,7 @@ func nodeFrame(w *World, snap int, nT int, signer string) {
 
 func Ob_C10C07_RemoveVstorage() {
 	w := NewWorld()
+	concreteNodeParams(w, 1000000, 1000000000000)
 	var msg nodetypes.MsgRemoveVstorage
 	sym.Fill("msg", &msg)
 	p0, had := w.Node.GetPledge(w.Ctx, msg.Creator)
@@ -125,6 +126,7 @@ func Ob_C10C07_RemoveVstorage() {
 
 func Ob_C10C07_AddVstorage() {
 	w := NewWorld()
+	concreteNodeParams(w, 1000000, 1000000000000)
 	var msg nodetypes.MsgAddVstorage
 	sym.Fill("msg", &msg)
 	p0, had := w.Node.GetPledge(w.Ctx, msg.Creator)
@@ -178,7 +180,10 @@ func narrowComplete(w *World, o ordertypes.Order) {
 	if sym.Tier() != "quick" {
 		return
 	}
-	sym.Assume(o.Operation != 2)
+	sym.Assume(o.Operation != 2 && o.Status == ordertypes.OrderCompleted) // a later replica completing; first completion is C04/C16's subject
+	sym.SetBound("Shard.RenewInfos", 0)
+	sym.SetBound("Metadata.Orders", 0)
+	sym.SetBound("ExpiredData.Data", 0)
 	for _, id := range o.Shards {
 		s, f := w.Order.GetShard(w.Ctx, id)
 		sym.Assume(!f || s.Status != ordertypes.ShardMigrating)
